@@ -785,7 +785,7 @@ impl Model {
                     if valid(kind, &md) {
                         callbacks.push(ExpCallback {
                             kind: CbKind::Restored,
-                            md: md.clone(),
+                            md: project(kind, &md),
                             env: None,
                         });
                         match restored {
@@ -913,7 +913,7 @@ impl Model {
                     if valid(kind, &md) {
                         callbacks.push(ExpCallback {
                             kind: CbKind::Strategy,
-                            md: md.clone(),
+                            md: project(kind, &md),
                             env: Some(pre_env.clone()),
                         });
                         match strategy {
@@ -928,7 +928,7 @@ impl Model {
                             Strategy::Update => {
                                 callbacks.push(ExpCallback {
                                     kind: CbKind::Update,
-                                    md: md.clone(),
+                                    md: project(kind, &md),
                                     env: Some(pre_env),
                                 });
                                 path.push_str("update");
@@ -946,10 +946,12 @@ impl Model {
                                 self.set_env_dirs(i, &explicit);
                                 path.push_str("keep");
                                 let env = self.env_of(i);
+                                // on disk: everything the previous build left; in the returned
+                                // data: what the layer's metadata type can represent
                                 done!(
                                     ExpResult::TraitOk {
                                         types,
-                                        meta: md,
+                                        meta: project(kind, &md),
                                         env: Box::new(env)
                                     },
                                     None
